@@ -1239,9 +1239,17 @@ the ones that failed to resolve removed."""
             uscore_enums[uscored] = enum
             uscore_enums[enum.name] = enum
 
+        # An error quark function may have been moved into a type as a static
+        # method by now (foo_pad_error_quark() into FooPad)
+        quark_functions = []
         for node in self._namespace.values():
-            if not isinstance(node, ast.ErrorQuarkFunction):
-                continue
+            if isinstance(node, ast.ErrorQuarkFunction):
+                quark_functions.append(node)
+            for func in getattr(node, 'static_methods', []):
+                if isinstance(func, ast.ErrorQuarkFunction) and func not in quark_functions:
+                    quark_functions.append(func)
+
+        for node in quark_functions:
             full = node.symbol[:-len('_quark')]
             ns, short = self._transformer.split_csymbol(node.symbol)
             short = short[:-len('_quark')]
